@@ -28,14 +28,14 @@ type repResp = adminservice.StreamWorkflowReplicationMessagesResponse
 // messages from it and Send()s sync-states to it).
 type cliStream struct {
 	grpc.ClientStream
-	ctx      context.Context
-	md       metadata.MD
-	in       chan ev[repResp]
-	mu       sync.Mutex
-	sent     []*repReq
-	sendErr  error // when set, Send fails with it
-	closed   bool  // CloseSend called
-	eof      chan struct{}
+	ctx             context.Context
+	md              metadata.MD
+	in              chan ev[repResp]
+	mu              sync.Mutex
+	sent            []*repReq
+	sendErr         error // when set, Send fails with it
+	closed          bool  // CloseSend called
+	eof             chan struct{}
 	ignoreCloseSend bool // a peer that does not answer the half-close
 }
 
@@ -133,13 +133,13 @@ func (s *srvStream) SetSendErr(err error) {
 // newest stream per "serverCluster:serverShard" key is kept, all are listed in order.
 type multiClient struct {
 	adminservice.AdminServiceClient
-	mu      sync.Mutex
-	streams map[string]*cliStream
-	all     []*cliStream
-	openErr error
-	openErrFirst []error // consumed one per open attempt before anything else: transient failures
-	attempts     []metadata.MD // outgoing metadata of EVERY open attempt, failed ones included
-	opened  chan *cliStream // optional notification
+	mu           sync.Mutex
+	streams      map[string]*cliStream
+	all          []*cliStream
+	openErr      error
+	openErrFirst []error         // consumed one per open attempt before anything else: transient failures
+	attempts     []metadata.MD   // outgoing metadata of EVERY open attempt, failed ones included
+	opened       chan *cliStream // optional notification
 }
 
 func newMultiClient() *multiClient { return &multiClient{streams: map[string]*cliStream{}} }
